@@ -3,7 +3,7 @@ adcgen.indices:order_substitutions and adcgen.expr_container:Container.permute."
 import itertools
 import z3
 from pyvc import contract as C
-from pyvc.contract import Contract, register
+from pyvc.contract import Contract, register, lemma
 from pyvc.values import (Struct, Sym, PList, PDict, KDict, term, wrap, zand, zor, znot, zeq,
                          Unsupported)
 from spec.idx import IdxSort, new_index
@@ -129,3 +129,19 @@ class Permute(Contract):
             return cur
         return [("map-is-the-composition-of-the-transpositions-in-the-given-order",
                  zand(*[apply_map(m, x) == sequential(x) for x in points]))]
+
+
+@lemma("C08", "target-and-contracted-uncached")
+def target_and_contracted_uncached():
+    """Term.target / Term.contracted have to follow Expr.set_target_idx: a renaming done
+    after the target set was redefined must use the current one, so neither of them may be
+    cached on the term (syntactic frame condition on the decorators)"""
+    import ast
+    from pyvc.source import SourceTable
+    src = SourceTable()
+    out = []
+    for fn in ("target", "contracted"):
+        node = src.get(f"adcgen.expr_container:Term.{fn}")
+        decos = [ast.unparse(d) for d in node.decorator_list] if node is not None else ["<missing>"]
+        out.append((f"Term.{fn}-is-a-plain-property", z3.BoolVal(decos == ["property"])))
+    return out
